@@ -2,7 +2,7 @@
     statement by statement, exactly what the descriptor interpreter (Gen/Message.v, Gen/History.v) does -
     for ALL states and frames, by induction over the signal list. *)
 From Coq Require Import ZArith List Bool Lia.
-From CanVerif Require Import Can.Data Descriptor.Types Descriptor.Physical Gen.Message Gen.History Gen.HistoryPhys Gen.Api Gen.Wiring.
+From CanVerif Require Import Base.Dec Gen.RenderNum Can.Data Descriptor.Types Descriptor.Physical Gen.Message Gen.History Gen.HistoryPhys Gen.Api Gen.Wiring.
 Import ListNotations.
 Open Scope Z_scope.
 
@@ -651,4 +651,64 @@ Proof.
   unfold wiring_ok_c03, decls_ok in Hok. rewrite !andb_true_iff in Hok.
   destruct Hok as [[[[Hi Hf] _] _] Hu]. apply Z.eqb_eq in Hi.
   split; [rewrite Hi, Nat2Z.id; exact Hn|]. split; [exact Hu|]. apply (fields_ok_length w). exact Hf.
+Qed.
+
+(** ** enum types *)
+Lemma sprintf_prefix v rest : forall t, forallb (fun c => negb (c =? 37)) t = true ->
+  sprintf_one (t ++ rest) v = match sprintf_one rest v with Some r => Some (t ++ r) | None => None end.
+Proof.
+  induction t as [|c t IH]; intros H; cbn [app].
+  - destruct (sprintf_one rest v); reflexivity.
+  - cbn [forallb] in H. apply andb_true_iff in H. destruct H as [Hc Ht]. apply negb_true_iff in Hc.
+    cbn [sprintf_one]. rewrite Hc, (IH Ht). destruct (sprintf_one rest v); reflexivity.
+Qed.
+Lemma rconst_eqb_eq a b : rconst_eqb a b = true -> a = b.
+Proof.
+  destruct a, b; cbn; try discriminate; intros H.
+  - apply eqb_prop in H. subst. reflexivity.
+  - apply Z.eqb_eq in H. subst. reflexivity.
+Qed.
+Lemma find_map_fst {A} (f : A -> rconst) (g : A -> name) v : forall l,
+  find (fun c => case_matches (fst c) v) (map (fun x => (f x, g x)) l) =
+  match find (fun x => case_matches (f x) v) l with Some x => Some (f x, g x) | None => None end.
+Proof. induction l as [|x l IH]; cbn; [reflexivity|]. destruct (case_matches (f x) v); [reflexivity|exact IH]. Qed.
+
+(** the String() of an accepted enum type: the text of the FIRST value description whose value is v (1-bit signals:
+    whose value is 1 for true, anything else for false), otherwise <Msg>_<Sig>(<v in decimal>) / <Msg>_<Sig>(true|false) *)
+Definition enum_string_spec (m : message) (s : signal) (v : Z) : name :=
+  match find (fun vd => case_matches (case_of s vd) v) (s_value_descriptions s) with
+  | Some vd => vdesc_text vd
+  | None => enum_type_name m s ++ [40] ++ (if s_length s =? 1 then bool_text (negb (v =? 0)) else itoa v) ++ [41]
+  end.
+
+Lemma enum_ok_for_string m s e : enum_ok_for m s e = true ->
+  e_name e = enum_type_name m s /\ forall v, enum_string e v = Some (enum_string_spec m s v).
+Proof.
+  unfold enum_ok_for. rewrite !andb_true_iff. intros [[[[[[Hn Hp] _] _] _] Hc] Hd].
+  apply name_eqb_eq in Hn. split; [exact Hn|]. intros v.
+  apply (list_eqb_eq (fun a b => rconst_eqb (fst a) (fst b) && name_eqb (snd a) (snd b))) in Hc.
+  2:{ intros [a1 a2] [b1 b2]. cbn [fst snd]. rewrite andb_true_iff. intros [A B].
+      apply rconst_eqb_eq in A. apply name_eqb_eq in B. subst. reflexivity. }
+  apply name_eqb_eq in Hd. unfold enum_string, enum_string_spec. rewrite Hc, Hd, find_map_fst.
+  destruct (find (fun vd => case_matches (case_of s vd) v) (s_value_descriptions s)); [reflexivity|].
+  rewrite (sprintf_prefix v _ _ Hp). destruct (s_length s =? 1); reflexivity.
+Qed.
+
+Theorem enums_correct db p :
+  enums_ok db p = true ->
+  (forall m s, In m (db_messages db) -> In s (msg_signals m) -> has_custom_type s = true ->
+     exists e, filter (fun e => name_eqb (e_name e) (enum_type_name m s)) (p_enums p) = [e] /\
+               e_name e = enum_type_name m s /\ forall v, enum_string e v = Some (enum_string_spec m s v)) /\
+  (forall e, In e (p_enums p) -> exists m s, In m (db_messages db) /\ In s (msg_signals m) /\
+                                             has_custom_type s = true /\ e_name e = enum_type_name m s).
+Proof.
+  unfold enums_ok. rewrite andb_true_iff. intros [H1 H2]. split.
+  - intros m s Hm Hs Hc. rewrite forallb_forall in H1. specialize (H1 m Hm).
+    rewrite forallb_forall in H1. specialize (H1 s Hs). unfold signal_enum_ok in H1. rewrite Hc in H1.
+    unfold find_enum in H1.
+    destruct (filter (fun e => name_eqb (e_name e) (enum_type_name m s)) (p_enums p)) as [|e [|e' l]]; try discriminate.
+    exists e. split; [reflexivity|]. apply enum_ok_for_string. exact H1.
+  - intros e He. rewrite forallb_forall in H2. specialize (H2 e He).
+    apply existsb_exists in H2. destruct H2 as (m & Hm & H2). apply existsb_exists in H2. destruct H2 as (s & Hs & H2).
+    apply andb_true_iff in H2. destruct H2 as [Hc Hn]. exists m, s. repeat split; try assumption. apply name_eqb_eq. exact Hn.
 Qed.
